@@ -248,8 +248,8 @@ func (c *Collection) _set(txn *sql.Tx, key string, exp Exp, opts *sgbucket.Upser
 	// Now write the new state:
 	var stmt string
 	if exists {
-		if opts != nil && opts.PreserveExpiry {
-			exp = oldExp
+		if opts != nil && opts.PreserveExpiry && hadValue {
+			exp = oldExp // (a tombstone has no expiry to preserve)
 		}
 		stmt = `UPDATE documents SET value=?3, xattrs=?4, cas=?5, exp=?6, isJSON=?7, revSeqNo=?8, tombstone=(?3 IS NULL)
 				WHERE collection=?1 AND key=?2`
@@ -338,6 +338,9 @@ func (c *Collection) WriteCas(key string, exp Exp, cas CAS, val any, opt sgbucke
 		}
 		revSeqNo++
 		exp = absoluteExpiry(exp)
+		if raw == nil {
+			exp = 0 // a deletion clears the expiry: a tombstone must not be 'expired' again later
+		}
 		var sql string
 		if (opt & sgbucket.Append) != 0 {
 			// Append:
@@ -568,7 +571,7 @@ func (c *Collection) expireDocuments() (count int64, err error) {
 	// First find all the expired docs and collect their keys:
 	exp := nowAsExpiry()
 	rows, err := c.db().Query(`SELECT key FROM documents
-								WHERE collection = ?1 AND exp > 0 AND exp <= ?2`, c.id, exp)
+								WHERE collection = ?1 AND exp > 0 AND exp <= ?2 AND value NOT NULL`, c.id, exp)
 	if err != nil {
 		return
 	}
